@@ -113,6 +113,24 @@ def _parse_value(s, i):
                 i += 1
             if i < n and s[i] == ",":
                 i += 1
+    if s[i] == "[":
+        # record [a |-> v, ...]  (functions over other domains print as (k :> v @@ ...), not used here)
+        i += 1
+        rec = {}
+        while True:
+            while i < n and s[i].isspace():
+                i += 1
+            if s[i] == "]":
+                return rec, i + 1
+            m = re.compile(r"(\w+)\s*\|->").match(s, i)
+            if not m:
+                raise ValueError(f"cannot parse record at {s[i:i+40]!r}")
+            v, i = _parse_value(s, m.end())
+            rec[m.group(1)] = v
+            while i < n and s[i].isspace():
+                i += 1
+            if i < n and s[i] == ",":
+                i += 1
     if s[i] == '"':
         j = i + 1
         buf = []
@@ -132,6 +150,8 @@ def _parse_value(s, i):
 def _freeze(v):
     if isinstance(v, list):
         return tuple(_freeze(x) for x in v)
+    if isinstance(v, dict):
+        return tuple(sorted((k, _freeze(x)) for k, x in v.items()))
     if isinstance(v, set):
         return frozenset(v)
     return v
